@@ -23,13 +23,12 @@ func deleteChildOperator(d *dataTreeNavigator, context Context, expressionNode *
 
 		parentNode := candidate.Parent
 
-		candidatePath := candidate.GetPath()
-		childPath := candidatePath[len(candidatePath)-1]
-
+		// the victim is identified by what it IS, not by the key or index it carries: children of
+		// re-ordered, sliced or concatenated containers keep the keys of where they came from
 		if parentNode.Kind == MappingNode {
-			deleteFromMap(candidate.Parent, childPath)
+			deleteFromMap(candidate.Parent, candidate)
 		} else if parentNode.Kind == SequenceNode {
-			deleteFromArray(candidate.Parent, childPath)
+			deleteFromArray(candidate.Parent, candidate)
 		} else {
 			return Context{}, fmt.Errorf("cannot delete nodes from parent of tag %v", parentNode.Tag)
 		}
@@ -50,7 +49,7 @@ func removeFromContext(context Context, candidate *CandidateNode) (Context, erro
 	return context.ChildContext(newResults), nil
 }
 
-func deleteFromMap(node *CandidateNode, childPath interface{}) {
+func deleteFromMap(node *CandidateNode, victim *CandidateNode) {
 	log.Debug("deleteFromMap")
 	contents := node.Content
 	newContents := make([]*CandidateNode, 0)
@@ -59,9 +58,9 @@ func deleteFromMap(node *CandidateNode, childPath interface{}) {
 		key := contents[index]
 		value := contents[index+1]
 
-		shouldDelete := key.Value == childPath
+		shouldDelete := value == victim || key == victim
 
-		log.Debugf("shouldDelete %v? %v == %v = %v", NodeToString(value), key.Value, childPath, shouldDelete)
+		log.Debugf("shouldDelete %v? %v", NodeToString(value), shouldDelete)
 
 		if !shouldDelete {
 			newContents = append(newContents, key, value)
@@ -70,7 +69,7 @@ func deleteFromMap(node *CandidateNode, childPath interface{}) {
 	node.Content = newContents
 }
 
-func deleteFromArray(node *CandidateNode, childPath interface{}) {
+func deleteFromArray(node *CandidateNode, victim *CandidateNode) {
 	log.Debug("deleteFromArray")
 	contents := node.Content
 	newContents := make([]*CandidateNode, 0)
@@ -78,7 +77,7 @@ func deleteFromArray(node *CandidateNode, childPath interface{}) {
 	for index := 0; index < len(contents); index = index + 1 {
 		value := contents[index]
 
-		shouldDelete := fmt.Sprintf("%v", index) == fmt.Sprintf("%v", childPath)
+		shouldDelete := value == victim
 
 		if !shouldDelete {
 			value.Key.Value = fmt.Sprintf("%v", len(newContents))
